@@ -2,6 +2,8 @@
 
 #include <zlib.h>
 
+#include <unistd.h>
+
 #include <cstring>
 #include <unordered_map>
 
@@ -23,6 +25,7 @@ int g_prepared = 0;
 int g_writes = 0;
 int g_fault_k = 0;
 int g_fault_rc = SQLITE_IOERR;
+int g_crash_k = 0;   // the process dies right before the k-th prepared statement of the call is first stepped (0 = off)
 bool g_fault_fired = false;
 bool g_logging = true;
 bool g_inside = false;  // the harness's own (independent reader) statements are not counted
@@ -58,6 +61,7 @@ int n_prepared() { return g_prepared; }
 int n_writes() { return g_writes; }
 void set_fault(int k) { g_fault_k = k; g_fault_fired = false; }
 void set_fault_rc(int rc) { g_fault_rc = rc; }
+void set_crash(int k) { g_crash_k = k; }
 bool fault_fired() { return g_fault_fired; }
 void set_logging(bool on) { g_logging = on; }
 
@@ -93,6 +97,10 @@ extern "C"
             r.faulted = false;
             r.rc = -1;
             r.is_rollback = sql && strncasecmp(sql, "ROLLBACK", 8) == 0;
+            r.cls = r.is_rollback ? "rollback"
+                    : (sql && strncasecmp(sql, "BEGIN", 5) == 0) ? "begin"
+                    : (sql && (strncasecmp(sql, "COMMIT", 6) == 0 || strncasecmp(sql, "END", 3) == 0)) ? "commit"
+                    : r.readonly ? "read" : "write";
             if (g_logging)
                 r.sql = sql ? std::string(sql, n >= 0 ? strnlen(sql, (size_t)n) : strlen(sql)) : std::string();
             g_stmts.push_back(std::move(r));
@@ -107,6 +115,8 @@ extern "C"
         shim::stmt_rec* rec = it == g_index.end() ? nullptr : &g_stmts[it->second - 1];
         if (rec && rec->faulted)
             return rec->rc;  // a failed statement keeps failing, however often it is stepped
+        if (rec && g_crash_k > 0 && rec->k == g_crash_k && rec->rc == -1)
+            _exit(shim::CRASH_EXIT);  // crash point: no destructor, no ROLLBACK, no flush - the process is gone
         if (rec && g_fault_k > 0 && rec->k == g_fault_k && rec->rc == -1 && rec->is_rollback)
         {
             // ROLLBACK is the recovery action itself: "it fails without effect" would mean that
@@ -124,9 +134,13 @@ extern "C"
             g_fault_k = 0;
             return g_fault_rc;
         }
+        sqlite3* dbh = rec ? sqlite3_db_handle(stmt) : nullptr;
+        long chg0 = dbh ? sqlite3_total_changes(dbh) : 0;
         int rc = __real_sqlite3_step(stmt);
         if (rec)
         {
+            if (dbh)
+                rec->chg += sqlite3_total_changes(dbh) - chg0;
             if (rec->rc == -1 && !rec->readonly)
                 ++g_writes;
             rec->rc = rc;
